@@ -158,7 +158,8 @@ def _build_case(draw):
         if draw(st.integers(0, 3)) == 0:
             a['scratch'] = draw(st.integers(0, 3))
     return {'spec': spec, 'marks': marks, 'targets': targets,
-            'future': draw(st.booleans())}
+            'future': draw(st.booleans()),
+            'wfault': draw(st.one_of(st.none(), st.integers(0, 12)))}
 
 
 def _expected(case, ref):
@@ -374,14 +375,26 @@ def exec_build_store(case):
             if old['algs']:
                 with engines.loaded(old) as eng:
                     f = eng.factories
-                    for fac in (
-                        f[dawgie.Factories.analysis]
-                        + f[dawgie.Factories.regress]
-                        + f[dawgie.Factories.task]
-                    ):
-                        dawgie.pl.version.record(
-                            fac(dawgie.util.task_name(fac))
-                        )
+                    from .. import store as storemod
+
+                    wf = case.get('wfault')
+                    with storemod.catalogue_write_fault(
+                            wf if wf is not None else 10 ** 9) as hit:
+                        for fac in (
+                            f[dawgie.Factories.analysis]
+                            + f[dawgie.Factories.regress]
+                            + f[dawgie.Factories.task]
+                        ):
+                            bot = fac(dawgie.util.task_name(fac))
+                            try:
+                                dawgie.pl.version.record(bot)
+                            except OSError:
+                                # one catalogue write failed (disk full for
+                                # a moment): the recording is done again
+                                dawgie.pl.version.record(bot)
+                    if hit[0]:
+                        out.label('catalogue-write-failed-once-while-'
+                                  'recording')
             if case.get('future') and old['algs']:
                 # a later generation was recorded as well (the software was
                 # rolled forward and is now back): every element has one more
